@@ -4,7 +4,7 @@
 set -e
 TAG=$1; FEAT=$2
 REPO=${MW_REPO:-/repo}
-V=/verif
+V="$(cd "$(dirname "$0")" && pwd)"
 P=$V/target/$TAG/proj
 mkdir -p $P
 sed -e "s#@REPO@#$REPO#g" -e "s#@SRC@#$V/harness/mwmon/src#g" $V/harness/mwmon/Cargo.toml.in > $P/Cargo.toml.new
